@@ -173,7 +173,7 @@ class CExprHarness(Harness):
     prove_timeout_ms = 30000
     mode = "c27"
 
-    def __init__(self, use, dest, expr, march="x86_64"):
+    def __init__(self, use, dest, expr, march="x86_64", W=None):
         self.use = use
         self.dest = dest
         self.expr = expr
@@ -182,9 +182,11 @@ class CExprHarness(Harness):
         self.lits = csem.literals(expr)
         ops = optags(expr)
         self.text = csem.render(expr, lambda i, s: f"L{i}{s}")
-        self.name = f"{self.mode}.{use}[{march}:{dest}<-{self.text}] ops=,{','.join(ops)},"
+        prefix = "c27" if self.mode == "c27" else "c28.c"
+        self.name = f"{prefix}.{use}[{march}:{dest}<-{self.text}] ops=,{','.join(ops)},"
         self.params = dict(use=use, dest=dest, expr=expr, march=march)
-        self.W = 80 + 64 * self.text.count("*") + (SHIFT_COUNT_MAX + 1) * self.text.count("<<")
+        # engine width: chosen adaptively by run_batch (EngineBound => retry wider); replay is concrete
+        self.W = W or (80 + 64 * self.text.count("*") + (SHIFT_COUNT_MAX + 1) * self.text.count("<<"))
         self.shiftlits = csem.shift_count_literals(expr)
 
     # -- inputs ------------------------------------------------------------------------------------
@@ -315,33 +317,40 @@ class CExprHarness(Harness):
 BIN = list(csem.BINOPS)
 
 
+LIGHT = ["add", "sub", "shl", "shr", "band", "bor", "bxor"]
+HEAVY = ["mul", "div", "mod"]
+BOOLY = ["lt", "le", "gt", "ge", "eq", "ne", "land", "lor"]
+
+
 def quick_templates(march="x86_64"):
-    """(use, dest, expr) list: depth 1, every destination type for a core set, other uses on a subset"""
+    """(use, dest, expr, march) list: every depth-1 shape; every destination type for the value-producing operators,
+    the other uses of a constant expression on a subset of operators"""
     T = []
-    sufs2 = ["", "u"]
-    # (1) every binary operator x literal-type pairs x all destination types (plain literal leaves int/unsigned/long mix)
-    pairs = [("", ""), ("u", ""), ("", "u"), ("l", "u"), ("ul", "")]
+    alt = itertools.cycle(["int", "ulong", "short", "uint", "long", "uchar"])
     for op in BIN:
-        for sa, sb in pairs[:2]:
-            for d in DESTS:
+        dests = DESTS if op in LIGHT else (("char", "uint", "long", "ulong") if op in HEAVY else ("int", "uchar", "ulong"))
+        # (1) literal operands int op int / unsigned op int into the destination types
+        for sa, sb in (("", ""), ("u", "")):
+            for d in dests:
                 T.append(("global", d, [op, lit(0, sa), lit(1, sb)]))
-        for sa, sb in pairs[2:]:
-            for d in ("int", "ulong"):
-                T.append(("global", d, [op, lit(0, sa), lit(1, sb)]))
+        # other literal type pairs
+        for sa, sb in (("", "u"), ("l", "u"), ("ul", "")):
+            T.append(("global", next(alt), [op, lit(0, sa), lit(1, sb)]))
         # negative and narrow operands
-        for d in ("int", "uchar", "long"):
+        for d in ("int", "ulong"):
             T.append(("global", d, [op, ["neg", lit(0, "")], lit(1, "")]))
-            T.append(("global", d, [op, lit(0, ""), ["neg", lit(1, "")]]))
+        T.append(("global", "long", [op, lit(0, ""), ["neg", lit(1, "")]]))
+        T.append(("global", "uchar", [op, ["neg", lit(0, "")], ["neg", lit(1, "")]]))
         T.append(("global", "int", [op, ["cast", "char", lit(0, "")], lit(1, "")]))
         T.append(("global", "long", [op, ["neg", lit(0, "")], lit(1, "u")]))
     # (2) unary operators and casts
     for op in csem.UNOPS:
         for s in ("", "u", "l"):
-            for d in ("char", "int", "uint", "long", "ulong"):
+            for d in ("char", "uint", "long"):
                 T.append(("global", d, [op, lit(0, s)]))
     for t in DESTS + ["ullong"]:
         for s in ("", "ul"):
-            for d in ("int", "ulong", "short"):
+            for d in ("int", "ulong"):
                 T.append(("global", d, ["cast", t, lit(0, s)]))
         T.append(("global", "long", ["cast", t, ["neg", lit(0, "")]]))
     # plain literal and negated literal into every destination
@@ -354,19 +363,20 @@ def quick_templates(march="x86_64"):
         T.append(("global", d, ["cond", lit(0, ""), lit(1, ""), lit(2, "")]))
         T.append(("global", d, ["cond", lit(0, ""), ["neg", lit(1, "")], lit(2, "u")]))
     # (4) other uses
-    other_ops = ["add", "sub", "mul", "div", "mod", "shl", "shr", "band", "bor", "bxor", "lt", "eq", "land", "lor"]
-    for use, dests in (("array", ("char", "uint", "long")), ("field", ("short", "int", "ulong")),
+    other_ops = ["add", "sub", "mul", "div", "mod", "shl", "band", "lt", "land", "lor"]
+    for use, dests in (("array", ("char", "ulong")), ("field", ("short", "uint")),
                        ("static", ("uchar", "int")), ("bitfield", ("int",)),
-                       ("case", ("int", "uint", "long", "char")), ("enum", ("int", "long", "uchar")),
+                       ("case", ("int", "uint", "char")), ("enum", ("int", "uchar")),
                        ("arraysize", ("char",))):
         for d in dests:
             T.append((use, d, lit(0, "")))
-            T.append((use, d, ["neg", lit(0, "")]))
+            if use != "arraysize":
+                T.append((use, d, ["neg", lit(0, "")]))
             T.append((use, d, ["cast", "uchar", lit(0, "")]))
             for op in other_ops:
                 if use in ("static", "bitfield") and op not in ("add", "sub", "div", "shl"):
                     continue
-                T.append((use, d, [op, lit(0, ""), lit(1, "u" if op in ("sub", "shr") else "")]))
+                T.append((use, d, [op, lit(0, ""), lit(1, "u" if op in ("sub",) else "")]))
                 if op in ("div", "sub"):
                     T.append((use, d, [op, ["neg", lit(0, "")], lit(1, "")]))
     return [(u, d, e, march) for u, d, e in T]
@@ -445,6 +455,7 @@ def select(tier, seed):
 
 # ---------------------------------------------------------------------------------------------------
 _SUM = ("obligations", "discharged", "validated", "reached", "twin_violated")
+WIDTHS = (72, 104, 136, 168, 232, 296)     # engine width ladder: EngineBound (value may not fit) => next width
 
 
 def run_batch(cls, prop, specs, tag=""):
@@ -455,8 +466,11 @@ def run_batch(cls, prop, specs, tag=""):
                wall_s=0.0, **{k: 0 for k in _SUM})
     funcs = set()
     for n, spec in enumerate(specs):
-        h = cls(*spec)
-        r = run_harness(h, known, want_trace=(n < 2))
+        for W in WIDTHS:
+            h = cls(*spec, W=W)
+            r = run_harness(h, known, want_trace=(n < 2))
+            if not any(e.get("kind") == "EngineBound" for e in r.get("errors", [])):
+                break
         for k in _SUM:
             res[k] += r.get(k, 0)
         for k in ("violations", "known_hits", "inconclusive", "errors"):
